@@ -125,6 +125,11 @@ def whitelist_check(tier='quick', seed=0):
     from cylc.flow.task_outputs import CompletionEvaluator
     cells = dict(zip(CompletionEvaluator.__code__.co_freevars,
                      (c.cell_contents for c in CompletionEvaluator.__closure__)))
+    if 'visitor' not in cells or not hasattr(cells['visitor'], '_whitelist'):
+        return [dict(name='scan::CompletionEvaluator whitelist is a subset of {Expression, Name, Load, BoolOp, '
+                          'And, Or, BinOp}', kind='census', verdict='unknown', backend='scan',
+                     detail='the evaluator closure no longer holds a `visitor` with a `_whitelist`: '
+                            f'free variables {sorted(cells)}')]
     wl = cells['visitor']._whitelist
     allowed_types = {ast.Expression, ast.Name, ast.Load, ast.BoolOp, ast.And, ast.Or, ast.BinOp}
     bad = [t.__name__ for t in wl if t not in allowed_types]
